@@ -302,6 +302,17 @@ def rule_r2(chk, prog):
     n = 0
     for m in scope_modules(prog):
         for q, f in m.funcs.items():
+            if (m.name, q) == ('nodeio', 'parse_smtlib'):
+                # scans written with slices / str.find are judged on the
+                # equivalent character loops (equivalence itself is C08.R6;
+                # if it fails the loops stay unknown here)
+                from ..scanner_norm import normalised_scanner
+                nf, verdicts, _ = normalised_scanner(m)
+                # only the cursor matters for termination: it resumes at
+                # e+1 / size exactly as the character loop does
+                if all(v.ok for v in verdicts
+                       if v.what.startswith(('cursor', 'lexeme slice'))):
+                    f = nf
             for loop in walk_no_nested(f):
                 if isinstance(loop, ast.While):
                     n += 1
